@@ -189,10 +189,13 @@ func (z *ZodEnum[T, R]) PrefaultFunc(fn func() T) *ZodEnum[T, R] {
 	return z.withInternals(in)
 }
 
-// Meta stores metadata for this enum schema in the global registry.
+// Meta returns a new schema with the given metadata stored in the global
+// registry; the receiver and its registry entry are unchanged.
 func (z *ZodEnum[T, R]) Meta(meta core.GlobalMeta) *ZodEnum[T, R] {
-	core.GlobalRegistry.Add(z, meta)
-	return z
+	in := z.internals.Clone()
+	clone := z.withInternals(in)
+	core.GlobalRegistry.Add(clone, meta)
+	return clone
 }
 
 // Describe registers a description in the global registry.
